@@ -172,6 +172,11 @@ def finish(ctx, meta, extra=None):
         "analysis_errors": ctx.errors,
     }
     cov.update(ctx.repo.stats())
+    nf = {}
+    for m_ in ctx.repo.modules.values():
+        for k_, v_ in getattr(m_, "normal_form", {}).items():
+            nf[k_] = nf.get(k_, 0) + v_
+    cov["normal_form_rewrites"] = nf       # what sa/normalize.py changed before the rules looked (helpers inlined, named conditions/values substituted, ...)
     cov.update(ctx.notes)
     if extra:
         cov.update(extra)
